@@ -228,6 +228,24 @@ def r_pair(repo, tier):
                 r.stmt.lineno,
                 "bytes read from the variable tail into %r reach a return without being appended to obj.bytes (path %s): the instruction consumes bytes that its length does not account for" % (r.var, cfg.describe_path(path)),
             )
+    # raw: what is recorded is the consumed piece itself, not a value computed from it
+    for fid, (f, tails) in sorted(tfs.items(), key=lambda kv: kv[1][0].key):
+        fn = f.node
+        objnames = set(f.params()[:1]) | {"obj"}
+        tv = tail_vars(fn, tails)
+        for st in ast.walk(fn):
+            e = is_record(st, objnames)
+            if e is None:
+                continue
+            for c in ast.walk(e):
+                if isinstance(c, ast.Call) and norm(c.func) == "pack" and c.args and isinstance(c.args[0], ast.Name):
+                    v = c.args[0].id
+                    for a in ast.walk(fn):
+                        if isinstance(a, ast.Assign) and any(isinstance(t, ast.Name) and t.id == v for t in a.targets) and not isinstance(a.value, ast.Tuple):
+                            slices = [x for x in ast.walk(a.value) if isinstance(x, ast.Subscript) and isinstance(x.value, ast.Name) and x.value.id in tv and isinstance(x.slice, ast.Slice)]
+                            if slices and not (isinstance(a.value, ast.Subscript) and a.value in slices):
+                                out.inst("%s::raw %s" % (f.key, norm(a)[:60]), {"function": f.key, "recorded": norm(c), "defined_as": norm(a)[:80]})
+                                out.report(f.file, f.dqual, "recorded %s is not raw: %s" % (v, norm(a)[:70]), a.lineno, "`%s` appends `%s` to the instruction bytes, but %s is `%s`, a value computed from the consumed piece %s: the recorded bytes differ from the input bytes whenever the computation changes them" % (norm(st)[:60], norm(c), v, norm(a.value)[:60], norm(slices[0])))
     # order: pieces that are adjacent in the tail (v starts where u ends) are recorded in that order
     n_order = 0
     for fid, (f, tails) in sorted(tfs.items(), key=lambda kv: kv[1][0].key):
